@@ -115,4 +115,56 @@ theorem inst_stable (h : Inv s) (hs : step s t x = some s') (k : Key) (h1 : s.nc
   · exact ⟨by rw [a, h1], b⟩
   · have := h'.1; omega
 
+/-! ### the readers of the map identified (round 5c): no ghost state — the counter is the length of a duplicate-free list of
+exactly the goroutines inside a read-locked section -/
+
+/-- rows inside a read-locked section of the map -/
+def PC.isRd : PC → Bool
+  | .p1 | .p2 | .g1 | .g2 => true
+  | _ => false
+
+
+theorem step_rd_cases (hs : step s t x = some s') :
+    (s'.nrd = s.nrd + 1 ∧ (s.pc t).isRd = false ∧ (s'.pc t).isRd = true) ∨
+    (s'.nrd = s.nrd - 1 ∧ (s.pc t).isRd = true ∧ (s'.pc t).isRd = false) ∨
+    (s'.nrd = s.nrd ∧ (s'.pc t).isRd = (s.pc t).isRd) := by
+  step_cases hs <;> simp_all [upd, PC.isRd]
+
+/-- **the readers identified**: the read-lock counter is the number of goroutines inside a read-locked section. -/
+def Readers (s : St) : Prop :=
+  ∃ l : List Tid, l.Nodup ∧ l.length = s.nrd ∧ ∀ u, u ∈ l ↔ (s.pc u).isRd = true
+
+theorem readers_init (cfg : Cfg) : Readers (init cfg) := ⟨[], by simp, by simp [init], by simp [init, PC.isRd]⟩
+
+theorem readers_step (h : Readers s) (hs : step s t x = some s') : Readers s' := by
+  obtain ⟨l, hnd, hlen, hmem⟩ := h
+  have hoth : ∀ u, u ≠ t → s'.pc u = s.pc u := (step_flow hs).2
+  rcases step_rd_cases hs with ⟨hn, h0, h1⟩ | ⟨hn, h0, h1⟩ | ⟨hn, h01⟩
+  · have htl : t ∉ l := fun hm => by have := (hmem t).1 hm; rw [h0] at this; cases this
+    refine ⟨t :: l, List.nodup_cons.2 ⟨htl, hnd⟩, by simp [hlen, hn], fun u => ?_⟩
+    by_cases hu : u = t
+    · subst hu; simp [h1]
+    · simp [hu, hoth u hu, hmem u]
+  · have htl : t ∈ l := (hmem t).2 h0
+    refine ⟨l.erase t, hnd.erase t, by rw [List.length_erase_of_mem htl, hlen, hn], fun u => ?_⟩
+    by_cases hu : u = t
+    · subst hu; simp [h1, hnd.not_mem_erase]
+    · rw [List.mem_erase_of_ne hu, hoth u hu, hmem u]
+  · refine ⟨l, hnd, by rw [hlen, hn], fun u => ?_⟩
+    by_cases hu : u = t
+    · subst hu; rw [h01]; exact hmem u
+    · rw [hoth u hu]; exact hmem u
+
+theorem readers_reach {s : St} (h : Reach s) : Readers s := by
+  induction h with
+  | init cfg => exact readers_init cfg
+  | step t x _ hs ih => exact readers_step ih hs
+
+/-- a non-zero read-lock counter belongs to an identified goroutine inside a read-locked section. -/
+theorem reader_exists {s : St} (h : Reach s) (hn : s.nrd ≠ 0) : ∃ u, (s.pc u).isRd = true := by
+  obtain ⟨l, _, hlen, hmem⟩ := readers_reach h
+  cases l with
+  | nil => simp at hlen; exact absurd hlen.symm hn
+  | cons a l => exact ⟨a, (hmem a).1 (by simp)⟩
+
 end GoZero.C07.RM
